@@ -87,10 +87,22 @@ def W6(ctx):
         if k == "rt::park":
             out.append("park")
         cp = callee_path(t)
-        if cp.split("::")[-1] in REMOVERS and "VecDeque" in cp and t["args"]:
+        last = cp.split("::")[-1]
+        if t["args"] and ((last in ("retain", "retain_mut") and "VecDeque" in cp) or last in ("position", "rposition")):
             body_ = prog_.body_of(i)
             if mentions_field(deep(prog_, prog_.insts[i].key, body_.expr_of_operand(t["args"][0])), *WAITERS) is not None:
-                out.append("dequeue-self")
+                if last in ("retain", "retain_mut"):
+                    out.append("dequeue-self")
+                else:
+                    # `if let Some(i) = waiters.iter().position(..) { waiters.remove(i) }`: the search is performed on every
+                    # path, the removal exactly when the entry is there
+                    inst_ = prog_.insts[i]
+                    for (b2, t2, c2) in prog_.sites(i):
+                        cp2 = callee_path(t2)
+                        if cp2.split("::")[-1] == "remove" and "VecDeque" in cp2 and t2["args"] and \
+                                mentions_field(deep(prog_, inst_.key, body_.expr_of_operand(t2["args"][0])), *WAITERS) is not None:
+                            out.append("dequeue-self")
+                            break
         return out
     ea = EventAnalysis(prog, m).solve([root])
     ms = ea.must_of(root)
